@@ -53,6 +53,11 @@ Lemma min_not_unbounded n P c xs : is_min n P c xs -> ~ unbounded_below n P c.
 Proof. intros [F1 M1] U. destruct (U (dot c xs)) as [x [Fx Hx]]. specialize (M1 _ Fx). qlra. Qed.
 
 (* the clauses of the property as consequences of Correct *)
+Lemma Correct_infeasible_thin tau tol delta n P c : Correct tau tol delta n P c Infeasible -> thin n tau P.
+Proof. intros H. exact H. Qed.
+Lemma Correct_unbounded_inv tau tol delta n P c : Correct tau tol delta n P c Unbounded ->
+  (exists x, feas n P x) /\ unbounded_below n P c.
+Proof. intros H. exact H. Qed.
 Theorem Correct_margin tau tol delta n P c x : length x = n -> in_rows (tighten tau P) x ->
   ~ Correct tau tol delta n P c Infeasible.
 Proof. intros Hx Hin H. exact (H x Hx Hin). Qed.
